@@ -211,7 +211,7 @@ PROPS['C03'] = floor_prop(
     families=[('floorc', 80, 1500), ('floor', 50, 1000), ('floors', 120, 2500)],
     nontrivial=lambda st, s: any(l.startswith('d ') and ' wds=1 ' in l for l in st))
 PROPS['C04'] = floor_prop(
-    'C04', ['SimProc.Props.C04'], ['SimProc/Props/C04.lean'],
+    'C04', ['SimProc.Props.C04', 'SimProc.Props.C04W'], ['SimProc/Props/C04.lean', 'SimProc/Props/C04W.lean'],
     {'rec': _c.only(('received_part',)), 'ran': None},
     ('rec received_part',), 'family serial: source -> handlers/processors/buffers -> sink with constant parameters; '
                             'non-trivial = at least one part reached a station',
@@ -237,7 +237,8 @@ PROPS['C13'] = floor_prop(
      'rec': _c.only(('device_failure',)), 'now': None},
     ('rec device_failure', 'res shut'), 'implementation traces are produced with the deep-copy probe (a finished part kept through '
     'a failure must leave after restoration); non-trivial = a machine failed or was shut down', runner='ProbeRunner',
-    families=[('floorm', 120, 2500), ('floor', 80, 1500), ('floorc', 40, 800)])
+    families=[('floorm', 120, 2500), ('floor', 80, 1500), ('floorc', 40, 800), ('floorl', 60, 1000)],
+    impl_only_families=[('floorr', 60, 1000)])
 PROPS['C13']['monitors'] = M.MONITORS['C13'] + M.MONITORS['C03']
 PROPS['C15'] = floor_prop(
     'C15', ['SimProc.Props.C15', 'SimProc.Props.Facts', 'SimProc.Props.C15W'], ['SimProc/Props/C15.lean', 'SimProc/Props/C15W.lean'],
@@ -251,6 +252,8 @@ PROPS['C16'] = floor_prop(
     ('d ',), 'the runner also checks value bookkeeping on the live objects after every event; non-trivial = a value changed',
     runner='ValueRunner', families=[('floor', 120, 2500), ('floors', 80, 1500), ('maint', 60, 1000)],
     nontrivial=lambda st, s: any(l.startswith(('d ', 'm ')) and ' vh=0 ' not in l + ' ' for l in st))
+import c16 as _c16
+PROPS['C16']['extra'] = _c16.net_value
 PROPS['C17'] = floor_prop(
     'C17', ['SimProc.Props.C17', 'SimProc.Props.C17W'], ['SimProc/Props/C17.lean', 'SimProc/Props/C17W.lean'],
     {'p': _c.fields('kids', 'hist'), 'rec': _c.only(('received_part',))},
@@ -260,8 +263,9 @@ PROPS['C17']['tags']['d'] = lambda l: _c.fields('part', 'out', 'inprog')(l) if '
 PROPS['C20'] = dict(
     modules=['SimProc.Props.C20', 'SimProc.Props.Facts'], prop_files=['SimProc/Props/C20.lean'],
     families=[('sys', 200, 4000), ('sysm', 300, 6000)], runner='SysRunner',
+    impl_only_families=[('sysi', 100, 2000)],
     tags=tags('ev', 'now', 'res', 'ran', 'runbegin', 'rec', 'd', 'p', 's', 'n', 'm', 'sres', 'scount'),
-    monitors=[], nontrivial=has(('res ok', 'sres err', 'sres found')), stats=op_stats, divergence_is_witness=True,
+    monitors=M.MONITORS['C20'], nontrivial=has(('res ok', 'sres err', 'sres found')), stats=op_stats, divergence_is_witness=True,
     divergence_text='an asset created while the simulation runs must behave like the model\'s constructor + immediate '
                     'initialisation (= the same asset created before the start, shifted)',
     rule='family sys: assets of every kind constructed before the first run, between runs and from inside events; '
@@ -289,7 +293,7 @@ PROPS['C14'] = dict(
 )
 
 PROPS['C06'] = floor_prop(
-    'C06', ['SimProc.Props.C06', 'SimProc.Props.C06W'], ['SimProc/Props/C06.lean', 'SimProc/Props/C06W.lean'],
+    'C06', ['SimProc.Props.C06', 'SimProc.Props.C06W', 'SimProc.Props.C06T'], ['SimProc/Props/C06.lean', 'SimProc/Props/C06W.lean', 'SimProc/Props/C06T.lean'],
     {'ev': None, 'now': None, 'ran': None, 'd': _c.fields('part', 'out', 'down', 'cyc', 'off'),
      'rec': _c.only(('received_part', 'produced_part', 'device_failure', 'supplied_new_part'))},
     ('rec received_part',), 'non-trivial = a part was accepted by a device')
